@@ -296,6 +296,13 @@ fn vmess_grid(cx: &mut Cx, rng: &mut Rng) {
             let got = server_accepts(&cfg, &shared, &w);
             cx.decide("vmess-auth-id-timestamp", &proto.name(), json!({"delta": d}), d.abs() <= 120, got);
         }
+        // the extremes of the 64-bit timestamp field (where a signed difference or its absolute value overflows)
+        for (label, t) in [("i64::MIN", i64::MIN), ("i64::MIN+1", i64::MIN + 1), ("i64::MAX", i64::MAX), ("now-2^63", NOW as i64 + i64::MIN), ("now-2^63+1", NOW as i64 + i64::MIN + 1), ("now-2^63-1 (wraps)", (NOW as i64 + i64::MIN).wrapping_sub(1)), ("-1", -1), ("0", 0)] {
+            let mut c = RefClient::new(&cfg, &target, rng, NOW, ClientOpts { timestamp: Some(t), ..Default::default() });
+            let w = c.write(b"hello", rng);
+            let got = server_accepts(&cfg, &shared, &w);
+            cx.decide("vmess-auth-id-timestamp-extreme", &proto.name(), json!({"timestamp": label}), false, got);
+        }
         // client: response authentication byte, all 256 values; response keyed from another request
         let taddr = to_address(&target);
         let sh = real::client_shared(&cfg).unwrap();
